@@ -45,7 +45,7 @@ def build(tier):
                           functions=['RevMoveGen::genMovesNoUndoInfo (revmovegen.cpp:209-300)', 'RevMoveGen::sqAttacked', 'Position::makeMove'], stubs=['RevMoveGen::addMovesByMask -> recording model', 'kernel models (lemmas L-*)'],
                           bounds='two kings + %d further men; every legal move of the chosen mover (oracle); successor without en-passant square (with one, genMoves takes the double-push shortcut)' % (K - 2)))
             obs.append(Ob('O1-notinvalid-K%d@%d' % (K, par), u, 'h_notinvalid', '%d-man positions, %s: knownInvalid(successor, move, true undo info) is false and the predecessor is rebuilt exactly' % (K, who), unwind=65, param=par, core=(K == 3),
-                          tiers=('thorough',) if par in slowNI else ('quick', 'thorough'), timeout=1800 if K == 3 else 5400, mem_gb=12, backend='kissat',
+                          tiers=('thorough',) if par in slowNI else ('quick', 'thorough'), ram_gb=5.5 if K == 3 else 8, timeout=1800 if K == 3 else 5400, mem_gb=12, backend='kissat',
                           functions=['RevMoveGen::knownInvalid (revmovegen.cpp:339-363)', 'pieceCountsValid (302-337)', 'Position::Position(const Position&)', 'Position::unMakeMove/makeMove', 'MoveGen::canTakeKing'],
                           stubs=['TextIO::fixupEPSquare -> specification stub bound to the oracle', 'kernel models (lemmas L-*)'],
                           bounds='two kings + %d further men; every legal move of the chosen mover incl. castling, en passant, promotions, captures' % (K - 2)))
